@@ -448,7 +448,7 @@ Proof.
     replace (32000 - (32000 - 0 - 2 * Z.of_nat n)) with (2 * Z.of_nat n) by lia.
     replace (2 <=? 2 * Z.of_nat n) with true by (symmetry; apply Z.leb_le; lia).
     replace (2 * Z.of_nat n <=? 126) with true by (symmetry; apply Z.leb_le; lia).
-    rewrite Z.even_mul. simpl.
+    rewrite Z.even_mul. change (Z.even 2) with true. cbn [orb andb].
     replace (2 * Z.of_nat n / 2) with (Z.of_nat n) by (rewrite Z.mul_comm, Z.div_mul; lia).
     rewrite Nat2Z.id. reflexivity.
   - replace (- (32000 - 0 - 2 * Z.of_nat n - 1) =? 0) with false by (symmetry; apply Z.eqb_neq; lia).
@@ -456,26 +456,32 @@ Proof.
     replace (32000 - 1 + - (32000 - 0 - 2 * Z.of_nat n - 1)) with (2 * Z.of_nat n) by lia.
     replace (0 <=? 2 * Z.of_nat n) with true by (symmetry; apply Z.leb_le; lia).
     replace (2 * Z.of_nat n <=? 124) with true by (symmetry; apply Z.leb_le; lia).
-    rewrite Z.even_mul. simpl.
+    rewrite Z.even_mul. change (Z.even 2) with true. cbn [orb andb].
     replace (2 * Z.of_nat n / 2) with (Z.of_nat n) by (rewrite Z.mul_comm, Z.div_mul; lia).
     rewrite Nat2Z.id. reflexivity.
   - reflexivity.
 Qed.
 
+Lemma half_even : forall d, Z.even d = true -> 0 <= d -> 2 * Z.of_nat (Z.to_nat (d / 2)) = d.
+Proof.
+  intros d He Hd. apply Z.even_spec in He. destruct He as [k Ek]. subst d.
+  rewrite (Z.mul_comm 2 k), Z.div_mul by lia. rewrite Z2Nat.id by lia. lia.
+Qed.
+
 Lemma label_of_score_inj : forall s l, label_of_score s = Some l -> score_of_label 0 l = s.
 Proof.
-  intros s l. unfold label_of_score, score_of_label, MATE0.
+  intros s l. unfold label_of_score.
   destruct (s =? 0) eqn:E0.
-  - intros H; inversion H; subst. apply Z.eqb_eq in E0. lia.
+  - intros H. assert (E : l = Draw) by congruence. subst l. apply Z.eqb_eq in E0. simpl. lia.
   - destruct (0 <? s) eqn:E1.
-    + destruct ((2 <=? 32000 - s) && (32000 - s <=? 126) && Z.even (32000 - s)) eqn:E2; [|discriminate].
-      intros H; inversion H; subst; clear H.
+    + destruct ((2 <=? MATE0 - s) && (MATE0 - s <=? 126) && Z.even (MATE0 - s)) eqn:E2; [|discriminate].
+      intros H. assert (E : l = Win (Z.to_nat ((MATE0 - s) / 2))) by congruence. subst l.
       apply andb_true_iff in E2. destruct E2 as [E2 E3]. apply andb_true_iff in E2. destruct E2 as [E2 E4].
-      apply Z.leb_le in E2. apply Z.even_spec in E3. destruct E3 as [k Ek].
-      rewrite Ek. rewrite Z.mul_comm, Z.div_mul by lia. rewrite Z2Nat.id by lia. lia.
-    + destruct ((0 <=? 32000 - 1 + s) && (32000 - 1 + s <=? 124) && Z.even (32000 - 1 + s)) eqn:E2; [|discriminate].
-      intros H; inversion H; subst; clear H.
+      apply Z.leb_le in E2. pose proof (half_even _ E3 ltac:(lia)) as Hh.
+      unfold score_of_label. lia.
+    + destruct ((0 <=? MATE0 - 1 + s) && (MATE0 - 1 + s <=? 124) && Z.even (MATE0 - 1 + s)) eqn:E2; [|discriminate].
+      intros H. assert (E : l = Loss (Z.to_nat ((MATE0 - 1 + s) / 2))) by congruence. subst l.
       apply andb_true_iff in E2. destruct E2 as [E2 E3]. apply andb_true_iff in E2. destruct E2 as [E2 E4].
-      apply Z.leb_le in E2. apply Z.even_spec in E3. destruct E3 as [k Ek].
-      rewrite Ek. rewrite Z.mul_comm, Z.div_mul by lia. rewrite Z2Nat.id by lia. lia.
+      apply Z.leb_le in E2. pose proof (half_even _ E3 ltac:(lia)) as Hh.
+      unfold score_of_label. lia.
 Qed.
